@@ -693,7 +693,13 @@ func (c *FnCtx) strLit(s string) Term {
 	}
 	name := fmt.Sprintf("str$%d", len(c.strLits))
 	t := c.vc.Const(name, SStr)
-	c.vc.Assert(Eq(c.strLen(t), IntLit(int64(len(s)))))
+	// facts about a literal are closed terms: they are asserted globally even when the literal
+	// is first met inside a quantifier body (where other side facts are dropped)
+	raw := func(x Term) { c.vc.assertRaw("(assert " + x.S + ")") }
+	lenT := Term{fmt.Sprintf("(%s %s)", c.vc.Declare("strlen", []Sort{SStr}, SInt), t.S), SInt}
+	raw(App(SBool, ">=", lenT, IntLit(0)))
+	c.strLenDone[lenT.S] = true
+	raw(Eq(lenT, IntLit(int64(len(s)))))
 	// distinct from all previous literals
 	keys := make([]string, 0, len(c.strLits))
 	for k := range c.strLits {
@@ -701,14 +707,14 @@ func (c *FnCtx) strLit(s string) Term {
 	}
 	sort.Strings(keys)
 	for _, k := range keys {
-		c.vc.Assert(Not(Eq(t, c.strLits[k])))
+		raw(Not(Eq(t, c.strLits[k])))
 	}
 	c.strLits[s] = t
 	c.strLitText[t.S] = s
 	// byte view for short literals
 	if len(s) <= 16 {
 		for i := 0; i < len(s); i++ {
-			c.vc.Assert(Eq(c.strAt(t, IntLit(int64(i))), IntLit(int64(s[i]))))
+			raw(Eq(c.strAt(t, IntLit(int64(i))), IntLit(int64(s[i]))))
 		}
 	}
 	return t
